@@ -147,8 +147,9 @@ def check(ctx):
             return "the deadline setter returns without storing the deadline"
         if "thcancel" in st and "thnone" not in st:
             return "old timer cancelled but still referenced"
-        if act in facts and (canc[0], False) in facts and "rearm" not in st:
-            return "an active, not yet cancelled scope gets a new deadline without the timer being re-armed (the new deadline never fires)"
+        if "rearm" not in st and (act[0], False) not in facts and (canc[0], True) not in facts:
+            return ("the deadline setter can return without re-arming the timer although the scope may be active and not cancelled "
+                    "(the new deadline never fires); only an inactive or already cancelled scope may skip the re-arm")
         return None
 
     def is_handle_test(frag, node):
